@@ -112,7 +112,6 @@ type traceCodec struct {
 	jsonrpc2.Codec
 	ep  string
 	log *evlog
-	wmu sync.Mutex
 }
 
 func msgEvent(ev, ep string, msg *jsonrpc2.Message) J {
@@ -137,8 +136,9 @@ func msgEvent(ev, ep string, msg *jsonrpc2.Message) J {
 }
 
 func (c *traceCodec) WriteMessage(msg *jsonrpc2.Message) error {
-	c.wmu.Lock()
-	defer c.wmu.Unlock()
+	// logged before it is written (a message is never read before its "send"); the write itself is NOT serialised
+	// here: concurrent callers reach the real codec's WriteMessage concurrently, as they do without the wrapper
+	// (the specification's wire is a set: the order of the log need not be the order on the wire)
 	c.log.emit(msgEvent("send", c.ep, msg))
 	return c.Codec.WriteMessage(msg)
 }
